@@ -384,3 +384,64 @@ pub proof fn lemma_add_edge_br(v: Seq<BasicBlock>, w: Seq<BasicBlock>, i: usize,
         assert(ends_in_branch(w[k]) == ends_in_branch(v[k]));
     }
 }
+
+// ---- loop depth (I8), as a function of the statement tree: the depths of the blocks that visiting `s` at nesting
+// depth d creates, in creation order.  A while statement creates its condition block at depth d ("a loop's condition
+// block counting as outside that loop") and its body block at d + 1; everything inside the body is visited at d + 1.
+// `ends_open(s)`: visiting s leaves the last block open (visit_statement returns the empty set).
+pub open spec fn ends_open(s: ast::Statement) -> bool
+    decreases s
+{
+    match s {
+        ast::Statement::While { .. } => false,
+        ast::Statement::IfThenElse { .. } => false,
+        ast::Statement::Block { stmts, .. } => seq_ends_open(stmts@, stmts@.len() as int),
+        _ => true,
+    }
+}
+pub open spec fn seq_ends_open(s: Seq<ast::Statement>, n: int) -> bool
+    decreases s, n
+{
+    if n <= 0 || n > s.len() { true } else { ends_open(s[n - 1]) }
+}
+pub open spec fn new_depths(s: ast::Statement, d: nat) -> Seq<nat>
+    decreases s
+{
+    match s {
+        ast::Statement::While { stmt, .. } => seq![d, d + 1] + new_depths(*stmt, d + 1),
+        ast::Statement::IfThenElse { if_case, else_case, .. } =>
+            seq![d] + new_depths(*if_case, d) + (match else_case { Some(e) => seq![d] + new_depths(*e, d), None => Seq::<nat>::empty() }),
+        ast::Statement::Block { stmts, .. } => seq_depths(stmts@, stmts@.len() as int, d),
+        _ => Seq::<nat>::empty(),
+    }
+}
+pub open spec fn seq_depths(s: Seq<ast::Statement>, n: int, d: nat) -> Seq<nat>
+    decreases s, n
+{
+    if n <= 0 || n > s.len() { Seq::<nat>::empty() }
+    else { seq_depths(s, n - 1, d) + (if seq_ends_open(s, n - 1) { Seq::<nat>::empty() } else { seq![d] }) + new_depths(s[n - 1], d) }
+}
+pub open spec fn depths_match(v: Seq<BasicBlock>, n0: int, ds: Seq<nat>) -> bool {
+    v.len() == n0 + ds.len() && forall|j: int| n0 <= j < v.len() ==> bb_depth(#[trigger] v[j]) as nat == ds[j - n0]
+}
+pub open spec fn depth_frame(v0: Seq<BasicBlock>, v: Seq<BasicBlock>) -> bool {
+    v0.len() <= v.len() && forall|k: int| 0 <= k < v0.len() ==> bb_depth(#[trigger] v[k]) == bb_depth(v0[k])
+}
+pub proof fn lemma_depths_cat(v1: Seq<BasicBlock>, v2: Seq<BasicBlock>, n0: int, a: Seq<nat>, b: Seq<nat>)
+    requires 0 <= n0, depths_match(v1, n0, a), depth_frame(v1, v2), depths_match(v2, v1.len() as int, b)
+    ensures depths_match(v2, n0, a + b)
+{
+    let ab = a + b;
+    assert forall|j: int| n0 <= j < v2.len() implies bb_depth(#[trigger] v2[j]) as nat == ab[j - n0] by {
+        if j < v1.len() { assert(bb_depth(v1[j]) as nat == a[j - n0]); assert(bb_depth(v2[j]) == bb_depth(v1[j])); }
+        else { assert(bb_depth(v2[j]) as nat == b[j - v1.len()]); }
+    }
+}
+pub proof fn lemma_depths_same(v1: Seq<BasicBlock>, v2: Seq<BasicBlock>, n0: int, a: Seq<nat>)
+    requires 0 <= n0, depths_match(v1, n0, a), depth_frame(v1, v2), v1.len() == v2.len()
+    ensures depths_match(v2, n0, a)
+{
+    assert forall|j: int| n0 <= j < v2.len() implies bb_depth(#[trigger] v2[j]) as nat == a[j - n0] by {
+        assert(bb_depth(v1[j]) as nat == a[j - n0]); assert(bb_depth(v2[j]) == bb_depth(v1[j]));
+    }
+}
